@@ -120,6 +120,65 @@ def build_insts(run, cfg, tier):
     return progs, insts
 
 
+def seq_insts(run, cfg):
+    """The same object is asserted twice, the first time inside a region whose guard is 0 (or plainly): whatever the first
+    assertion left behind, the second must still be enforced.  End-to-end instances captured with error checks off."""
+    asserts = {
+        "bool": (lambda r: {"op": "call", "fn": "LinCombBool", "args": [r]}, [0, 1, 2, 3], "bool", 0),
+        "ensurebool": (lambda r: {"op": "call", "fn": "ensurebool", "args": [r]}, [0, 1, 2], "bool", 0),
+        "assert_positive": (lambda r: {"op": "meth", "name": "assert_positive", "a": r, "kw": {"bits": {"c": 1}}}, [0, 1, 2, 3], "assert_positive", 1),
+        "to_bits": (lambda r: {"op": "meth", "name": "to_bits", "a": r, "kw": {"bits": {"c": 1}}}, [0, 1, 2], "to_bits", 1),
+        "assert_lt": (lambda r: {"op": "meth", "name": "assert_lt", "a": r, "args": [{"c": 2}]}, [0, 1, 2, 3], "assert_lt", 2),
+        "assert_zero": (lambda r: {"op": "meth", "name": "assert_zero", "a": r}, [0, 1], "assert_zero", 0),
+    }
+    first = {
+        "same": None,
+        "wider_bits": lambda r: {"op": "meth", "name": "to_bits", "a": r},
+        "bool": lambda r: {"op": "call", "fn": "LinCombBool", "args": [r]},
+    }
+    progs = []
+    for nm, (mk, vals, op, bparam) in asserts.items():
+        for fnm, fmk in first.items():
+            for v in vals:
+                for g in ("none", 0):
+                    for mode in ("ign", "plain"):
+                        B = gen.Builder("seq/%s/%s/%d/%s/%s" % (nm, fnm, v, g, mode), mode, None,
+                                        {"op": op, "kinds": "S", "a": v, "b": bparam, "n": bparam if op in ("assert_positive", "to_bits") else cfg["bitlength"]})
+                        rx = B.opnd(("S", v))
+                        f1 = (fmk or mk)(rx)
+                        if g == "none":
+                            B.add(f1)
+                        else:
+                            B.add({"op": "guarded", "cond": B.opnd(("SB", 0)), "body": [f1]})
+                        st = mk(rx)
+                        st["tag"] = "main"
+                        B.add(st)
+                        progs.append(B.build())
+    traces = common.run_programs(cfg, progs)
+    byid = {t["id"]: t for t in traces}
+    insts = []
+    for t in traces:
+        if not t["id"].endswith("/ign"):
+            continue
+        tp = byid[t["id"][:-4] + "/plain"]
+        mp = [e for e in tp["events"] if e.get("tag") == "main"]
+        accepted = bool(mp) and mp[-1]["out"] == "ok" and all(e["out"] == "ok" for e in tp["events"])
+        # only programs whose FIRST step is accepted with checks on are meaningful for SameRel; enforcement is judged for all
+        inst = instances.from_trace_e2e(t, "assert", {"accepted": accepted})
+        if inst is None or inst["out"] != "ok":
+            continue
+        first_ok = all(e["out"] == "ok" for e in tp["events"] if e.get("tag") != "main" and e["op"] != "end") or not mp
+        if not first_ok:
+            inst["accepted"] = False
+            inst["skip_samerel"] = True
+        inst["res"] = []
+        insts.append(inst)
+        run.nontrivial.add((cfg["P"], "seq", inst["op"], t["meta"].get("mode")))
+    run.evaluations += len(insts)
+    run.notes.append("P=%d: %d end-to-end assertion sequences on one object" % (cfg["P"], len(insts)))
+    return progs, insts
+
+
 def free_insts(run, cfg, tier):
     """One accepted instance per (assertion, kinds, width): all wires free, TLC covers every operand value of the field."""
     progs = [p for p in programs("quick", cfg["bitlength"]) if p["id"].endswith("/plain")
@@ -164,6 +223,10 @@ def main(tier):
                               programs=progs, chunk=400, parallel=8, props=["C03", "C16"])
         if run.violations:
             break
+    if not run.violations:
+        scfg = {"P": 13, "bitlength": 2, "resolution": 1}
+        sp, si = seq_insts(run, scfg)
+        common.validate_insts(run, "Soundness", si, cfg="Soundness_C03seq.cfg", label="sequences on one object, end to end", programs=sp, chunk=12, parallel=8, props=["C03", "C16"])
     run.exhaustive = True
     return run.finish(RULE, assumptions=["small-prime instantiation with no-wrap margin P > 2^(2b+2)", "operands fixed to the recorded values; every wire the assertion allocates is adversarial"],
                       trusted=["TLC 1.8", "harness observers (recorder, driver, instances)"])
